@@ -46,8 +46,12 @@ def opBigScan (total : Nat) (d : List UInt8) : String :=
     | (_, none) => if d.drop 1 |>.all (· != 0xd3) then s!"{total} NONE" else "BAD-OP"
 
 def opIter (d : List UInt8) : String :=
-  let r := iterFrames d
-  s!"{r.2} {r.1.length}" ++ String.join (r.1.map fun f => " " ++ hexOrDash f.frameData)
+  let r := IterState.collect (d.length + 1) { data := d, index := 0 }
+  -- the iterator is polled twice more after it ran dry: consumed() must not move, nothing may appear
+  let p1 := r.2.next
+  let p2 := p1.1.next
+  s!"{r.2.index} {r.1.length}" ++ String.join (r.1.map fun f => " " ++ hexOrDash f.frameData) ++
+    s!" | {p1.1.index}:{p1.2.isSome} {p2.1.index}:{p2.2.isSome}"
 
 def opFeed (chunks : List (List UInt8)) : String :=
   let s := feedAll chunks
